@@ -119,8 +119,8 @@ Theorem imp_DNATo2Bit dst src : all_bytes src ->
 Proof.
   intros Hs. unfold imp_sequtil_DNATo2Bit, to2bit. cbv zeta.
   unfold go_range, indexed.
-  change (go_iter _ (combine (zseq 0 (length src)) src) dst)
-    with (go_iter (to2bit_body (go_len dst)) (combine (zseq (Z.of_nat 0) (length src)) src) dst).
+  timeout 120 (change (go_iter _ (combine (zseq 0 (length src)) src) dst)
+    with (go_iter (to2bit_body (go_len dst)) (combine (zseq (Z.of_nat 0) (length src)) src) dst)).
   replace dst with (dst ++ rev []) at 2 by (cbn; apply app_nil_r).
   rewrite (to2bit_loop dst src Hs 0 []) by reflexivity.
   change (N.of_nat 0) with 0.
@@ -295,8 +295,8 @@ Proof.
   replace (N.of_nat (length src) mod 3 =? 0) with (Z.of_nat (length src mod 3) =? 0)%Z.
   2:{ destruct (Z.eqb_spec (Z.of_nat (length src mod 3)) 0) as [E|E]; symmetry; [apply N.eqb_eq|apply N.eqb_neq]; lia. }
   destruct (Z.eqb_spec (Z.of_nat (length src mod 3)) 0) as [E|E]; cbn [negb]; [|reflexivity].
-  change (go_while fuel _ _ (0%Z, repeat 0 3, dst))
-    with (go_while fuel (translate_cond ([] ++ src)) (translate_body ([] ++ src)) (Z.of_nat (length (@nil N)), repeat 0 3, dst)).
+  timeout 120 (change (go_while fuel _ _ (0%Z, repeat 0 3, dst))
+    with (go_while fuel (translate_cond ([] ++ src)) (translate_body ([] ++ src)) (Z.of_nat (length (@nil N)), repeat 0 3, dst))).
   rewrite (translate_loop fuel [] src (repeat 0 3) dst Hs eq_refl) by lia.
   destruct (translate_codons src); reflexivity.
 Qed.
